@@ -174,6 +174,75 @@ fn text_cases(ctx: &mut Ctx, lines: &[String], crlf: bool, final_term: bool, rou
     }
 }
 
+/// Compressed inputs made of several concatenated frames (zstd) / members (gzip): whatever the first
+/// pass of a fresh lender yields is the reference; every pass after a rewind must yield the same.
+fn multi_frame_cases(ctx: &mut Ctx, rounds: usize) {
+    let pieces: Vec<&str> = vec!["", "a\n", "b\nc\n", "d", "e\r\n", "\n"];
+    let mut streams: Vec<Vec<&str>> = vec![];
+    for a in &pieces {
+        for b in &pieces {
+            streams.push(vec![a, b]);
+            for c in &pieces[..4] {
+                streams.push(vec![a, b, c]);
+            }
+        }
+    }
+    let big1: String = (0..3000).map(|i| format!("{:016x}{:016x}first{i}\n", mix(i), mix(i + 5))).collect();
+    let big2: String = (0..3000).map(|i| format!("{:016x}{:016x}second{i}\n", mix(i + 70_000), mix(i + 9))).collect();
+    streams.push(vec![&big1, &big2]);
+    streams.push(vec![&big1, "", &big2, "tail"]);
+    for frames in streams {
+        for kind in ["ZstdLineLender", "GzipLineLender"] {
+            let big = frames.iter().any(|f| f.len() > 1000);
+            if !ctx.case(|| format!("{kind} multi-frame stream frames={:?} (all histories of <= {rounds} consume/rewind rounds)", frames.iter().map(|f| if f.len() > 20 { format!("<{} bytes>", f.len()) } else { format!("{f:?}") }).collect::<Vec<_>>())) {
+                continue;
+            }
+            ctx.nontrivial();
+            let mut stream: Vec<u8> = vec![];
+            for f in &frames {
+                if kind == "ZstdLineLender" {
+                    stream.extend(zstd::encode_all(f.as_bytes(), 3).unwrap());
+                } else {
+                    stream.extend(gz(f.as_bytes()));
+                }
+            }
+            macro_rules! body {
+                ($mk:expr) => {{
+                    // first pass of a fresh lender
+                    let first = guard(|| -> Result<Vec<String>, String> {
+                        let mut got = vec![];
+                        let mut l = $mk;
+                        while let Some(x) = l.next() {
+                            got.push(x.map_err(|e| e.to_string())?.to_owned());
+                        }
+                        Ok(got)
+                    });
+                    match first {
+                        Outcome::Ret(Err(_)) => ctx.count("multi_frame_first_pass_errors"),
+                        Outcome::Panic(m) => ctx.violation(&format!("C20|{kind}::next|panic"), format!("{} frames: {m}", frames.len())),
+                        Outcome::Ret(Ok(exp)) => {
+                            ctx.add("multi_frame_first_pass_lines", exp.len() as u64);
+                            for h in histories(exp.len(), if big { 1 } else { rounds }) {
+                                if h.is_empty() {
+                                    continue;
+                                }
+                                ctx.sub_evaluations += 1;
+                                let r = guard(|| drive::<str, _>($mk, &exp, &h));
+                                report(ctx, kind, None, r);
+                            }
+                        }
+                    }
+                }};
+            }
+            if kind == "ZstdLineLender" {
+                body!(ZstdLineLender::new(Cursor::new(stream.clone())).unwrap());
+            } else {
+                body!(GzipLineLender::new(Cursor::new(stream.clone())).unwrap());
+            }
+        }
+    }
+}
+
 fn iter_cases(ctx: &mut Ctx, rounds: usize) {
     for n in 0..=4usize {
         let mut t: Vec<usize> = vec![0, 1, n.saturating_sub(1), n, n + 1];
@@ -245,6 +314,7 @@ fn main() {
     if t {
         text_cases(&mut ctx, &big, true, false, 2, tmp.path(), true);
     }
+    multi_frame_cases(&mut ctx, rounds);
     iter_cases(&mut ctx, rounds);
     ctx.finish();
 }
